@@ -46,8 +46,10 @@ ASSUMPTIONS = [
   'the replayed value of a signal in cycle t is read at time 100*t; header lines (before #0) are the file\'s initial values',
 ]
 RULE = ('random component trees (depth 0-2; ports, port lists, interfaces, wires chained into multi-member nets, constants, slices, '
-        'bitstruct fields, registers, wrapping counters, class reuse, child lists, >94 nets) x random input sequences with sticky/revisited '
-        'values x sim_reset/manual reset/no reset; non-trivial = at least one data net changes after cycle 0 and one never changes; '
+        'bitstruct fields (incl. 61/64/122-bit ones), registers, wrapping counters, wide complement-toggling registers, widths 1..183, '
+        'class reuse, child lists, >94 nets) x input sequences with sticky / revisited / random / boundary-biased steps (equal modulo 2^61-1, '
+        'equal low 32/64 bits, top bit only, complement, 0 <-> all ones, 1 <-> 1<<61, neighbours of 2^64; one field at a time for bitstructs) '
+        'x sim_reset/manual reset/no reset; non-trivial = at least one data net changes after cycle 0 and one never changes; '
         'distinct = distinct design seed')
 
 # ------------------------------------------------------------------ values
@@ -71,6 +73,42 @@ def unpack(mod, td, x):
     w = G.nbits(ft); sh -= w
     vals.append(unpack(mod, ft, (x >> sh) & ((1 << w) - 1)))
   return getattr(mod, td[1])(*vals)
+
+M61 = (1 << 61) - 1      # CPython's hash modulus for ints
+
+def near_bits(rng, n, v):
+  """a value of n bits 'close' to v in the ways a cheap change test (hash, int32/int64 truncation, sign bit,
+  string prefix) could confuse with v: equal modulo 2^61-1, equal low 32/64 bits, differing in the top bit only,
+  complement, all-zeros/all-ones, neighbours of 2^64"""
+  top = (1 << n) - 1
+  k = rng.randrange(12)
+  if k == 0: w = v ^ top                                   # complement (0 <-> all ones)
+  elif k == 1: w = v + M61 * rng.randint(1, 3)             # same value modulo 2^61-1
+  elif k == 2: w = v - M61 * rng.randint(1, 3)
+  elif k == 3: w = v ^ (1 << (n - 1))                      # top bit only
+  elif k == 4: w = v ^ (1 << 32) if n > 32 else v ^ 1      # same low 32 bits
+  elif k == 5: w = v ^ (1 << 64) if n > 64 else v ^ (1 << (n // 2))
+  elif k == 6: w = {0: top, top: 0}.get(v, rng.choice([0, top]))
+  elif k == 7: w = {1: 1 << 61, 1 << 61: 1}.get(v, rng.choice([1, 1 << 61])) if n > 61 else v + 1
+  elif k == 8: w = rng.choice([M61, 2 * M61, (1 << 64) - 1, (1 << 64) - 2, 1 << 64, 1 << 63, (1 << 63) - 1, (1 << 32) - 1, 1 << 32, 1 << 31])
+  elif k == 9: w = (v % M61) if v > M61 else v + M61       # the canonical representative / one step up
+  elif k == 10: w = v ^ (rng.getrandbits(n) << 64 if n > 64 else rng.getrandbits(n) << 32 if n > 32 else 1)   # high part only
+  else: w = v + rng.choice([1, -1])
+  if not (0 <= w <= top): w = w % (top + 1) if k not in (1, 2, 9) else (v % M61 if v > M61 else v)
+  return w
+
+def near(rng, td, x):
+  """boundary-biased successor of the packed value x of type td; for a bitstruct exactly one (leaf) field moves"""
+  if td[0] == 'b': return near_bits(rng, td[1], x)
+  fields = G.STRUCTS[td[1]]
+  pick = rng.randrange(len(fields))
+  out, sh = 0, G.nbits(td)
+  for i, (f, ft) in enumerate(fields):
+    w = G.nbits(ft); sh -= w
+    fv = (x >> sh) & ((1 << w) - 1)
+    if i == pick: fv = near(rng, ft, fv)
+    out = (out << w) | fv
+  return out
 
 TOK = re.compile(r'([A-Za-z_][A-Za-z_0-9]*)|\[(\d+)\]')
 
@@ -145,13 +183,14 @@ def simulate(ck, case):
     r.after_apply = read_all()
     api_samples = {}      # cycle index -> sample taken through the public API
     inports = [(e, td) for e, td in spec.inports]
-    pools = {e: [0, (1 << G.nbits(td)) - 1, drng.getrandbits(G.nbits(td))] for e, td in inports}
     cur = {e: 0 for e, _ in inports}
+    pools = {e: [0, (1 << G.nbits(td)) - 1, drng.getrandbits(G.nbits(td))] for e, td in inports}
     def set_inputs():
       for e, td in inports:
         q = drng.random()
-        if q < 0.45: v = cur[e]
-        elif q < 0.75: v = drng.choice(pools[e])
+        if q < 0.35: v = cur[e]
+        elif q < 0.55: v = drng.choice(pools[e])
+        elif q < 0.80: v = near(drng, td, cur[e])
         else:
           v = drng.getrandbits(G.nbits(td)); pools[e].append(v)
         cur[e] = v
